@@ -120,6 +120,21 @@ def run(rep, tier, seed, model_ok=True, effort=1):
         if code != 0 or tags != [["tag", "1.2.4"]]:
             rep.violation("an empty tag_message does not give a plain `git tag <version>`", input=dict(config=fmt, exit=code, tag_commands=tags, logs=logs[-3:]), **{"class": "tag-message-invented"})
     # end to end through `update`
+    # hg receives the commit message through a file: its bytes are the UTF-8 of the message whatever the process locale is
+    msg_u = "Ver\u00f6ffentlichung {new_version} \u2713"
+    prj = project.TempProject("MAJOR.MINOR.PATCH", "1.2.3", files={"a.txt": ["ver = {version}"]}, commit=True, tag=False, push=False, vcs="fakehg",
+                              vcs_cfg=dict(tags=[], status="", remote=None), commit_message=msg_u)
+    with prj:
+        before = prj.snapshot()
+        c_, o_, e_ = prj.run_subprocess(["update", "--patch", "--no-fetch"], env_extra={"LC_ALL": "C", "LANG": "C", "PYTHONUTF8": "0", "PYTHONCOERCECLOCALE": "0", "PYTHONIOENCODING": "utf-8"})
+        log_ = prj.vcs_log()
+        after = prj.snapshot()
+    rep.case(("hg-ascii-locale",), nontrivial=True)
+    got_ = next((e["logfile_bytes"] for e in log_ if e["key"] == "commit" and "logfile_bytes" in e), None)
+    want_ = msg_u.format(new_version="1.2.4")
+    if c_ != 0 or got_ != want_:
+        rep.violation("hg commit message under an ASCII process locale: exit %s, message file %r, expected %r" % (c_, got_, want_),
+                      input=dict(vcs="fakehg", commit_message=msg_u, locale="LC_ALL=C, UTF-8 mode off", exit=c_, files_changed=after != before, stderr=e_.decode("utf-8", "replace")[-300:]), **{"class": "hg-message-altered"})
     for i in range(n):
         vcs = r.choice(["fakegit", "fakegit", "fakehg"])
         from_cli = r.random() < 0.5
